@@ -1,17 +1,18 @@
 SPECIFICATION Spec
 CONSTANTS
-  D = 3
-  Mode = "pairs"
-  Width = 2
+  D = 6
+  Mode = "families"
+  Width = 1
   Foreigns = FALSE
   Wraps = FALSE
-  RefWraps = FALSE
-  WrapMax = 0
+  RefWraps = TRUE
+  WrapMax = 1
   ForeignVals <- ForeignValsQuick
   ForeignBase <- ForeignBaseQuick
   WithAcc = FALSE
-  ExportMode = "verdict"
+  ExportMode = "errors"
 INVARIANT EmptyAccepts
 INVARIANT NoSurprises
 INVARIANT ExportInv
+PROPERTY RefSiblingStep
 CHECK_DEADLOCK FALSE
